@@ -2,6 +2,12 @@
 
 package kapacitor
 
+import (
+	"sync"
+
+	"github.com/influxdata/kapacitor/edge"
+)
+
 // VerifHook, when installed by a verification harness, is called at the
 // points marked verifHook(...) in this package.  It may block (scheduling gate)
 // or panic (fault injection).  Absent from normal builds.
@@ -11,4 +17,28 @@ func verifHook(point string, args ...string) {
 	if h := VerifHook; h != nil {
 		h(point, args...)
 	}
+}
+
+// verifEdgeNames remembers (task, parent, child) of every edge so that the
+// Emit override below can tell the harness which node is receiving.
+var verifEdgeNames sync.Map // *Edge -> [3]string
+
+func verifEdgeCreated(se edge.StatsEdge, task, parent, child string) {
+	if e, ok := se.(*Edge); ok {
+		verifEdgeNames.Store(e, [3]string{task, parent, child})
+	}
+}
+
+// Emit wraps the embedded StatsEdge.Emit: point "edge.emit" (task, parent,
+// child) is reported from the receiving node's goroutine for every message it
+// takes off the edge.  Only present in verif builds.
+func (e *Edge) Emit() (edge.Message, bool) {
+	m, ok := e.StatsEdge.Emit()
+	if ok && VerifHook != nil {
+		if n, found := verifEdgeNames.Load(e); found {
+			names := n.([3]string)
+			verifHook("edge.emit", names[0], names[1], names[2])
+		}
+	}
+	return m, ok
 }
